@@ -249,6 +249,11 @@ func run(c Case, r *pbt.R) {
 		defer p.Close()
 		if p.C.CtorErr != nil || p.S.CtorErr != nil {
 			r.Class("constructor-error")
+			for _, e := range []error{p.C.CtorErr, p.S.CtorErr} {
+				if e != nil {
+					r.Class("ctor:" + shortErr(e))
+				}
+			}
 
 			return
 		}
@@ -410,6 +415,63 @@ func run(c Case, r *pbt.R) {
 			r.Failf("C11|group-out-of-policy", "key exchange group %04x; client curves %04x, server curves %04x", group, cp.curves, sp.curves)
 
 			return
+		}
+		// signature scheme of the server's proof of possession (ServerKeyExchange in 1.2,
+		// CertificateVerify in 1.3): offered by the client and inside both configured lists
+		scheme := uint16(0)
+		if ver == 12 && !pskSuites[suite] {
+			for _, ev := range p.Net.EventsFrom("S") {
+				if f, ok := scen.FirstPlainHS(ev.Data, scen.HTServerKeyExchange); ok {
+					b := f.Body
+					if len(b) >= 4 && b[0] == 3 && len(b) >= 4+int(b[3])+2 {
+						b = b[4+int(b[3]):]
+						scheme = uint16(b[0])<<8 | uint16(b[1])
+					}
+				}
+			}
+		} else if ver == 13 {
+			if dec := scen.Decoder13(p, gens); dec != nil {
+				for _, ev := range p.Net.EventsFrom("S") {
+					ds, _ := dec.Decode("S", ev.Data, 0)
+					for _, d := range ds {
+						if !d.OK || d.Type != scen.CTHandshake {
+							continue
+						}
+						fr, _ := scen.SplitHandshake(d.Plain)
+						for _, f := range fr {
+							if f.Type == scen.HTCertificateVerify && f.FragOff == 0 && len(f.Body) >= 2 {
+								scheme = uint16(f.Body[0])<<8 | uint16(f.Body[1])
+							}
+						}
+					}
+				}
+			}
+		}
+		if scheme != 0 {
+			r.Class("server-signature-scheme-seen")
+			if ch != nil {
+				if sa, ok := scen.FindExt(ch.Exts, 13); ok && len(sa) >= 2 {
+					var offered []uint16
+					for i := 2; i+1 < len(sa); i += 2 {
+						offered = append(offered, uint16(sa[i])<<8|uint16(sa[i+1]))
+					}
+					if !slices.Contains(offered, scheme) {
+						r.Failf("C11|signature-scheme-not-offered", "server signed with scheme %04x, the ClientHello offered %04x", scheme, offered)
+
+						return
+					}
+				}
+			}
+			if len(c.C.SigSchemes) > 0 && !slices.Contains(c.C.SigSchemes, scheme) {
+				r.Failf("C11|signature-scheme-outside-client-policy", "server signed with %04x, client allows %04x", scheme, c.C.SigSchemes)
+
+				return
+			}
+			if len(c.S.SigSchemes) > 0 && !slices.Contains(c.S.SigSchemes, scheme) {
+				r.Failf(fmt.Sprintf("C11|signature-scheme-outside-server-policy|1.%d", ver-10), "server signed with %04x although its own configured list is %04x (client %04x)", scheme, c.S.SigSchemes, c.C.SigSchemes)
+
+				return
+			}
 		}
 		// SRTP / ALPN
 		if prof, ok := side.Conn.SelectedSRTPProtectionProfile(); ok {
@@ -573,6 +635,9 @@ func genSide(t *rapid.T, label string, server bool, family string) scen.EP {
 	if rapid.IntRange(0, 2).Draw(t, label+"cid") == 0 {
 		ep.CID = rapid.SampledFrom([]int{-1, 1000, 2, 5}).Draw(t, label+"cidv")
 	}
+	if family != "psk" {
+		ep.SigSchemes = genList(t, label+"sigs", []uint16{0x0403, 0x0503, 0x0603, 0x0807, 0x0401, 0x0804}, 1)
+	}
 	if server {
 		ep.SkipHelloVfy = rapid.Bool().Draw(t, label+"skiphv")
 	}
@@ -580,10 +645,61 @@ func genSide(t *rapid.T, label string, server bool, family string) scen.EP {
 	return ep
 }
 
+// repair makes an option set constructible (the library rejects, at construction, a credential
+// without a compatible suite, suites of no enabled version, and curves of no enabled version).
+func repair(ep *scen.EP, family string) {
+	only12 := ep.MaxVer == 12 || (ep.MaxVer == 0 && ep.MinVer == 0)
+	only13 := ep.MinVer == 13
+	if len(ep.Suites) > 0 {
+		has12cert, has12psk, has13 := false, false, false
+		for _, su := range ep.Suites {
+			switch {
+			case is13(su):
+				has13 = true
+			case pskSuites[su]:
+				has12psk = true
+			default:
+				has12cert = true
+			}
+		}
+		if ep.PSK != "" && !has12psk {
+			ep.Suites = append(ep.Suites, 0x00a8)
+		}
+		if ep.PSK != "" && only13 {
+			ep.MinVer, ep.MaxVer = 12, 12
+			only12, only13 = true, false
+		}
+		if family != "psk" {
+			if only12 && !has12cert {
+				ep.Suites = append(ep.Suites, 0xc02b, 0xc02f)
+			}
+			if only13 && !has13 {
+				ep.Suites = append(ep.Suites, 0x1301)
+			}
+		} else if ep.Cert != "" && !has12cert {
+			ep.Suites = append(ep.Suites, 0xc02b)
+		}
+	} else if ep.PSK != "" {
+		// the default suite list has no PSK suite
+		ep.Suites = []uint16{0x00a8, 0xccab}
+		if only13 {
+			ep.MinVer, ep.MaxVer = 12, 12
+			only12 = true
+		}
+	}
+	if len(ep.Curves) == 1 && ep.Curves[0] == 0x11ec && only12 {
+		ep.Curves = append(ep.Curves, 0x001d)
+	}
+}
+
 func gen(t *rapid.T) Case {
 	family := rapid.SampledFrom([]string{"cert", "cert", "cert", "psk"}).Draw(t, "family")
 
 	c := Case{C: genSide(t, "c", false, family), S: genSide(t, "s", true, family)}
+	if rapid.IntRange(0, 9).Draw(t, "repair") != 0 {
+		repair(&c.C, family)
+		repair(&c.S, family)
+	}
 	// with probability 2/3 pull the two sets towards an agreement in most dimensions, so that the
 	// soundness side of the oracle sees many successful negotiations with differing lists
 	if rapid.IntRange(0, 2).Draw(t, "align") != 0 {
@@ -623,6 +739,18 @@ func gen(t *rapid.T) Case {
 				}
 			} else {
 				c.S.SRTP = append([]uint16(nil), c.C.SRTP...)
+			}
+		}
+		if family == "cert" && keep("asg") && (len(c.C.SigSchemes) > 0 || len(c.S.SigSchemes) > 0) {
+			// a scheme the server's key can produce, allowed by both explicit lists
+			fit := map[string]uint16{"ecdsa": 0x0403, "ed25519": 0x0807, "rsa": 0x0804}[c.S.Cert]
+			if fit != 0 {
+				if len(c.C.SigSchemes) > 0 && !slices.Contains(c.C.SigSchemes, fit) {
+					c.C.SigSchemes = append(c.C.SigSchemes, fit)
+				}
+				if len(c.S.SigSchemes) > 0 && !slices.Contains(c.S.SigSchemes, fit) {
+					c.S.SigSchemes = append(c.S.SigSchemes, fit)
+				}
 			}
 		}
 		if family == "cert" && keep("ak") {
